@@ -25,6 +25,35 @@ func registerRegexIntrinsics() {
 			}
 			return in.mkSlice(vs)
 		}
+		if s.kind == sEnum {
+			// finite-domain subject: run the real regexp on every alternative
+			st := in.St
+			ms := make([][]string, len(s.alts))
+			var ds []*sym.Term
+			var live []int
+			ng := re.NumSubexp() + 1
+			for i, a := range s.alts {
+				ms[i] = re.FindStringSubmatch(a)
+				if ms[i] != nil {
+					ds = append(ds, st.Eq(s.sel, st.Int(int64(i))))
+					live = append(live, i)
+				}
+			}
+			if !in.branch(st.Or(ds...), "regex match (enum) "+shortRe(re.String())) {
+				return &SliceV{}
+			}
+			vs := make([]Value, ng)
+			for g := 0; g < ng; g++ {
+				alts := make([]string, len(s.alts))
+				for i := range s.alts {
+					if ms[i] != nil {
+						alts[i] = ms[i][g]
+					}
+				}
+				vs[g] = normEnum(&Str{kind: sEnum, sel: s.sel, alts: alts, max: maxLen(alts)}, live)
+			}
+			return in.mkSlice(vs)
+		}
 		ok, caps := in.regexMatch(re.String(), s)
 		if !in.branch(ok, "regex match "+shortRe(re.String())) {
 			return &SliceV{}
@@ -49,6 +78,15 @@ func registerRegexIntrinsics() {
 		s := a[1].(*Str)
 		if s.kind == sConc {
 			return in.St.Bool(re.MatchString(s.conc))
+		}
+		if s.kind == sEnum {
+			var ds []*sym.Term
+			for i, a := range s.alts {
+				if re.MatchString(a) {
+					ds = append(ds, in.St.Eq(s.sel, in.St.Int(int64(i))))
+				}
+			}
+			return in.St.Or(ds...)
 		}
 		ok, _ := in.regexMatch(re.String(), s)
 		return ok
